@@ -23,7 +23,7 @@ ExpectOK(s) == s.kind \in {"ok", "vsaok", "relayok"} /\ Answers(s)
 NCer(s) == IF s.during THEN s.at + 1 ELSE s.at
 ErrClasses(s) ==
   CASE ~Answers(s) /\ s.kind # "eof" -> {"timeout"}
-    [] s.kind = "fail"                -> {"failed"}
+    [] s.kind \in {"fail", "failok"}   -> {"failed"}     \* failok: a failing CEA with a success CEA pipelined behind it
     [] s.kind \in {"noresult", "nooh"} -> {"malformed"}
     [] s.kind \in {"noapps", "unsupapps", "vsaunsup"} -> {"malformed", "noapp", "failed"}
     [] s.kind = "eof"                 -> {"transport", "timeout"}
